@@ -1,5 +1,5 @@
 """Property id -> check function."""
-from . import props_glr, props_lex, props_lr, props_tbl
+from . import props_glr, props_lex, props_lr, props_prec, props_tbl
 
 CHECKS = {
     "C01": props_glr.c01,
@@ -7,6 +7,7 @@ CHECKS = {
     "C03": props_glr.c03,
     "C04": props_lr.c04,
     "C05": props_tbl.c05,
+    "C06": props_prec.c06,
     "C07": props_lex.c07,
     "C08": props_lr.c08,
     "C10": props_lr.c10,
